@@ -60,3 +60,43 @@ pub fn run() -> i32 {
     println!("selftest: ok={n_ok} bad={bad} probes={probes:?}");
     if bad == 0 { 0 } else { 1 }
 }
+
+/// Emit the byte arrays of the Miri scenario (three tiny streams).
+pub fn gen_miri() -> i32 {
+    let mut rng = Rng::new(0xC17);
+    let emit = |name: &str, pics: &[Vec<u8>]| {
+        println!("pub const {name}: &[&[u8]] = &[");
+        for p in pics {
+            println!("    &{:?},", p);
+        }
+        println!("];");
+    };
+    println!("//! Generated once by `h263-sim gen-miri` (harness encoder); frozen.");
+    // Sorenson: I, P, disposable P, P of a 16x16 picture
+    let mut cfg = GenCfg::draw(&mut rng, &[0]);
+    cfg.density = 1;
+    cfg.max_coef_sum = 2000;
+    cfg.mb_weights = [1, 2, 1, 1, 1, 0, 0];
+    let fl = Flavour::Sorenson { version: 0, size_code: 0 };
+    let mut pics = Vec::new();
+    pics.push(encode(&gen_textured_intra(&mut rng, &cfg, fl.clone(), 16, 16, 1)).0);
+    for (i, t) in [PType::P, PType::Disposable, PType::P].iter().enumerate() {
+        pics.push(encode(&gen_picture(&mut rng, &cfg, fl.clone(), *t, 16, 16, 2 + i as u8)).0);
+    }
+    emit("SORENSON", &pics);
+    // standard PLUSPTYPE: I, P of an 8x8 picture (touches the lazily initialised option masks)
+    let mut cfg = GenCfg::draw(&mut rng, &[4]);
+    cfg.density = 1;
+    cfg.max_coef_sum = 2000;
+    let fl = Flavour::StdPlus { umv_unlimited: false, layers: None };
+    let mut pics = Vec::new();
+    pics.push(encode(&gen_textured_intra(&mut rng, &cfg, fl.clone(), 8, 8, 1)).0);
+    pics.push(encode(&gen_picture(&mut rng, &cfg, fl.clone(), PType::P, 8, 8, 2)).0);
+    // and a corrupted one that must fail the same way everywhere
+    let mut bad = pics[1].clone();
+    let n = bad.len();
+    bad[n / 2] ^= 0x10;
+    pics.push(bad);
+    emit("STANDARD", &pics);
+    0
+}
